@@ -12,7 +12,8 @@ CLAIMED = {
             "guards; the recorded mutex calls and observer answers are validated step by step against the trace "
             "specification. Spinlocks: every interleaving of the atomic operations of 2-3 threads is model-checked "
             "(mutual exclusion, happens-before of critical sections with the code's own memory orders, ticket order, "
-            "progress) and replayed on the real locks under a cooperative scheduler.",
+            "progress) and replayed on the real locks under a cooperative scheduler."
+            " A ThreadSanitizer witness (harness/conc_tsan.cpp: free-running threads on the real header, plain data ordered only by the component) is an additional observation channel beside the model; it decides nothing on its own.",
             "TLC bounds (3 guards, 2 mutexes, 2-3 threads, 2 rounds); interleaving semantics + release/acquire "
             "happens-before (no load buffering); harness seams (counting mutex, __atomic builtin macros) are faithful",
             "TLA+ spec + TLC exhaustive model checking; spec behaviours replayed into the real code; recorded traces validated against the trace spec by TLC",
@@ -27,7 +28,8 @@ CLAIMED["C11"] = ("model_checking",
     "callback fires and quiescent_barrier returns - for 2 agents at atomic-access granularity and 3 agents at "
     "access/whole-operation granularity. Every transition of the 2-agent graph is replayed on the real "
     "qs_domain under a cooperative scheduler, together with random schedules of 2-6 agents; each recorded "
-    "trace is validated against the algorithm-independent property-layer trace spec QsTrace.tla.",
+    "trace is validated against the algorithm-independent property-layer trace spec QsTrace.tla."
+    " A ThreadSanitizer witness (harness/conc_tsan.cpp: free-running threads on the real header, plain data ordered only by the component) is an additional observation channel beside the model; it decides nothing on its own.",
     "bounds: 2-3 agents, 1-2 nodes, <=5 calls per agent, period counter <= 9; interleaving semantics with "
     "release/acquire happens-before (no stale reads); scheduler yields only at seam points (atomic accesses, mutex "
     "calls, callbacks); offline() while a period is deferred is excluded (documented precondition)",
@@ -52,7 +54,8 @@ CLAIMED["C10"] = ("model_checking",
     "(node fields and values, happens-before ghost instantiated with the memory orders extracted from the running "
     "code), ResultSound, PresentFound and structural sanity. Sampled transitions of those graphs are replayed on the "
     "real tree under a cooperative scheduler and several digit->nibble embeddings, together with random scripts under "
-    "random schedules; every trace is validated against the algorithm-independent RadixConcTrace.tla.",
+    "random schedules; every trace is validated against the algorithm-independent RadixConcTrace.tla."
+    " A ThreadSanitizer witness (harness/conc_tsan.cpp: free-running threads on the real header, plain data ordered only by the component) is an additional observation channel beside the model; it decides nothing on its own.",
     "bounds: 3 scenarios, <=7 writer calls, <=3 readers x <=2 finds; interleaving semantics + release/acquire "
     "happens-before; scheduler yields at atomic accesses and API returns only; a slot that held a value is "
     "re-constructed only after readers of that key have left find (the grace period an RCU user owes)",
